@@ -57,11 +57,11 @@ pub assume_specification[ GraphColoredVertices::minus ](a: &GraphColoredVertices
 pub assume_specification[ GraphColoredVertices::is_empty ](a: &GraphColoredVertices) -> (r: bool)
     ensures r <==> gv(a) == ISet::<Pt>::empty();
 pub assume_specification[ <GraphColoredVertices as Clone>::clone ](a: &GraphColoredVertices) -> (r: GraphColoredVertices)
-    ensures gv(&r) == gv(a);
+    ensures gv(&r) == gv(a), canonical_set(&r) == canonical_set(a);
 pub assume_specification[ <GraphColoredVertices as PartialEq>::eq ](a: &GraphColoredVertices, b: &GraphColoredVertices) -> (r: bool)
     ensures r <==> gv(a) == gv(b);
 pub assume_specification[ GraphColoredVertices::new ](bdd: Bdd, ctx: &SymbolicContext) -> (r: GraphColoredVertices)
-    ensures gv(&r) == bv(&bdd);
+    ensures gv(&r) == bv(&bdd), canonical_ctx(ctx) && canonical_bdd(&bdd) ==> canonical_set(&r);
 pub assume_specification[ GraphColoredVertices::as_bdd ](a: &GraphColoredVertices) -> (r: &Bdd)
     ensures bv(r) == gv(a);
 pub assume_specification[ GraphColoredVertices::into_bdd ](a: GraphColoredVertices) -> (r: Bdd)
@@ -201,3 +201,23 @@ pub assume_specification[ GraphColoredVertices::exact_cardinality ](a: &GraphCol
 pub assume_specification[ GraphColoredVertices::symbolic_size ](a: &GraphColoredVertices) -> (r: usize);
 pub assume_specification[ GraphColoredVertices::is_subset ](a: &GraphColoredVertices, b: &GraphColoredVertices) -> (r: bool)
     ensures r <==> gv(a).subset_of(gv(b));
+
+// ---------------- canonical (extra-variable-free) encoding: sanitising (C15) ----------------
+// A BDD / set over the canonical context is modelled by its cylinder: bv / gv of such an object is the set of ALL
+// well-shaped points whose (state, colour) part it contains; `canonical_bdd / canonical_set` record that the object itself
+// mentions no auxiliary variable.  transfer_from(target, bdd, source) (lib-param-bn: renames variables by name, fails if the
+// support of the BDD contains a variable the target does not have) succeeds exactly when the BDD does not depend on the
+// auxiliary variables, and then denotes the same cylinder.
+pub uninterp spec fn canonical_ctx(c: &SymbolicContext) -> bool;
+pub uninterp spec fn canonical_bdd(b: &Bdd) -> bool;
+pub uninterp spec fn canonical_set(s: &GraphColoredVertices) -> bool;
+pub open spec fn ext_indep(d: ISet<Pt>) -> bool {
+    forall|p: Pt, q: Pt| #![trigger d.contains(p), d.contains(q)] d.contains(p) && shaped(q) && q.s == p.s && q.c == p.c ==> d.contains(q)
+}
+pub assume_specification[ SymbolicContext::as_canonical_context ](c: &SymbolicContext) -> (r: SymbolicContext)
+    ensures canonical_ctx(&r);
+pub assume_specification[ SymbolicContext::transfer_from ](target: &SymbolicContext, bdd: &Bdd, source: &SymbolicContext) -> (r: Option<Bdd>)
+    requires canonical_ctx(target)
+    ensures
+        r is Some <==> ext_indep(bv(bdd)),
+        r matches Some(b) ==> bv(&b) == bv(bdd) && canonical_bdd(&b);
